@@ -31,6 +31,7 @@ PROPS = {
             fam("selfviews", g(gen.fam_selfviews), 60, 1500, view="values", rule="distinct (shape, op, kind of second handle of the same array: clone / column / row / flat view / sum(0), operand order, flag state), then a product further down"),
             fam("selfviews-float", g(gen.fam_selfviews, mode="float"), 30, 600, mode="float", view="values", rule="as above incl. div"),
             fam("ewise-grad", g(gen.fam_ewise, grads=True), 60, 1500, view="values", rule="distinct (op, shape pair)"),
+            fam("train", g(gen.fam_train), 40, 400, view="values", rule="graphs built by layers and models: tracked inputs (the gradient reaching the input batch), parameters, several iterations"),
         ],
         "assumptions": [F64_NOTE, SEED_NOTE, "user closures given to Array::op are lawful (the harness's are, by inspection and by correspondence)"],
     },
@@ -69,6 +70,7 @@ PROPS = {
             fam("matmul", g(gen.fam_matmul), 300, 8000, view="values", rule="distinct (leading dims a, leading dims b, m, k, n, ta, tb, additive-term form), rank-1 forms, inner mismatches"),
             fam("matmul-float", g(gen.fam_matmul, mode="float"), 60, 1500, mode="float", view="values", rule="as above on arbitrary doubles"),
             fam("sizes", g(gen.fam_sizes, part="matmul"), 0, 0, view="values", rule="lengths 5..65 that are not small powers of two (loop remainders): inner length, row count, column count x all flags x additive term, batched"),
+            fam("selfviews", g(gen.fam_selfviews), 0, 0, view="values", rule="an array multiplied (matmul, all four flag combinations, both operand orders) with another handle of itself: a clone, a same-shape view, views whose leading dimensions cross-broadcast with the original's"),
         ],
         "assumptions": [F64_NOTE],
     },
@@ -105,6 +107,7 @@ PROPS = {
             fam("flags", g(gen.fam_flags), 80, 2000, view="flags", rule="every operand flag assignment (6 ways of setting a flag) of every binary/unary op and matmul's 8 assignments; random programs with an untracked intermediate"),
             fam("flags-float", g(gen.fam_flags, mode="float"), 30, 600, mode="float", view="flags", rule="as above with the non-ring operations"),
             fam("history", g(gen.fam_history), 100, 3000, view="flags", rule="distinct histories with start/stop/tracked/untracked on handles and clones between passes; only flags, gradient presence and stored-operand flags are compared"),
+            fam("train", g(gen.fam_train), 40, 400, view="flags", rule="models fed tracked and untracked inputs: the input keeps its flags through forward / backward / update, gradients appear exactly on tracked inputs and parameters"),
         ],
         "assumptions": [F64_NOTE, SEED_NOTE, BYVALUE_NOTE],
     },
